@@ -23,7 +23,7 @@ use crate::rng::Rng;
 use crate::Ctx;
 
 pub fn gen_case(rng: &mut Rng, idx: usize, thorough: bool) -> Value {
-    if idx % 8 == 6 {
+    if idx % 16 == 6 {
         return gen_fuel_case(rng, thorough);
     }
     if idx % 2 == 1 {
@@ -38,7 +38,7 @@ pub fn gen_case(rng: &mut Rng, idx: usize, thorough: bool) -> Value {
     }
     let (g, texts) = eng::gen_grammar(rng, idx);
     return json!({"grammar": g.to_json(), "texts": texts.iter().map(|t| crate::vocab::hex(t)).collect::<Vec<_>>(),
-           "vocab_kind": 1 + idx % 2, "canonical": false, "seed": rng.next() % 1_000_000_000,
+           "vocab_kind": 1 + idx % 2, "canonical": idx % 12 == 4, "seed": rng.next() % 1_000_000_000,
            "mode": (idx / 2) % 4, "n_clones": 2 + rng.below(if thorough { 15 } else { 7 }), "ops": if thorough { 60 } else { 30 }});
 }
 
